@@ -49,7 +49,12 @@ def run_one(m, args):
     res = {"id": m["id"], "note": m.get("note", ""), "checks": {}}
     try:
         make_copy(root)
-        apply_mutant(root, m)
+        try:
+            apply_mutant(root, m)
+        except BaseException as e:
+            res["error"] = str(e)
+            print("{:28s} NOT APPLIED: {}".format(m["id"], e), flush=True)
+            return res
         if args.suite:
             out = subprocess.run(SUITE.format(d=root), shell=True, capture_output=True, text=True,
                                  env=dict(os.environ, PYTHONPATH=root)).stdout.strip().splitlines()
@@ -67,6 +72,7 @@ def run_one(m, args):
             res["checks"][p] = {"exit": r.returncode, "first": first[0][:200] if first else ""}
     finally:
         shutil.rmtree(root, ignore_errors=True)
+    print("{:36s} {}".format(m["id"], " ".join("{}:{}".format(p, {0: "MISSED", 1: "CAUGHT", 3: "HARNESS"}.get(c["exit"], c["exit"])) for p, c in res["checks"].items())), flush=True)
     return res
 
 
@@ -86,7 +92,10 @@ def main():
         cat = [m for m in cat if m["id"] in want or any(m["id"].startswith(w) for w in want)]
     with ThreadPoolExecutor(max_workers=args.parallel) as ex:
         results = list(ex.map(lambda m: run_one(m, args), cat))
+    print("---- summary ----")
     for r in results:
+        if "error" in r:
+            continue
         line = "{:28s}".format(r["id"])
         if "suite" in r:
             line += " suite[{}]".format(r["suite"][:40])
@@ -102,7 +111,8 @@ def main():
         with open(out) as f:
             prev = {r["id"]: r for r in json.load(f)}
     for r in results:
-        prev[r["id"]] = r
+        if "error" not in r:
+            prev[r["id"]] = r
     with open(out, "w") as f:
         json.dump([prev[k] for k in sorted(prev)], f, indent=1)
 
